@@ -181,7 +181,9 @@ func TestC08(t *testing.T) {
 		r.Require("verify_false_expected/"+kt, 50)
 		r.Require("env_reject_signature/"+kt, 100)
 		r.Require("env_accept_sealed_content/"+kt, 20)
-		r.Require("pubkey_edit_parsed_other_key/"+kt, 10)
+		if kt != "ecdsa" { // a single-byte edit of a P-256 point is (practically) never on the curve
+			r.Require("pubkey_edit_parsed_other_key/"+kt, 10)
+		}
 		r.Require("sig_edit_total/"+kt, 100)
 		r.Require("books_forged_refused/"+kt, 2)
 		r.Require("books_honest_accepted/"+kt, 2)
